@@ -126,7 +126,7 @@ def render : Event → List String
   | .poll it t r =>
     let head := s!"env poll iter={it} timeout={t} clock={r.clock} done={r.done} ->"
     if r.eintr then [head ++ " EINTR"] else if r.deadlock then [head ++ " DEADLOCK"]
-    else [head ++ String.join (r.batch.map fun (o, e) => s!" {ownerName o}:{e}")]
+    else [head ++ String.join (r.batch.map fun (o, e) => s!" {ownerName o}:{e}") ++ (if r.full then " FULL" else "")]
   | .obs o => [renderObs o]
   | .runBegin m => [s!"run {modeName m}"]
   | .runEnd m r => [s!"op run {modeName m} -> ret {b01 r}"]
@@ -163,7 +163,9 @@ def parsePoll (ws : List String) : PollRes :=
   match after with
   | ["EINTR"] => { eintr := true, clock := clock, done := done }
   | ["DEADLOCK"] => { deadlock := true, clock := clock, done := done }
-  | evs => { clock := clock, done := done,
+  | evs0 =>
+    let evs := evs0.filter (· ≠ "FULL")
+    { clock := clock, done := done, full := evs0.contains "FULL",
              batch := evs.map fun w => match w.splitOn ":" with
                | [o, e] => (ownerOf o, e.toNat?.getD 0)
                | _ => (.other, 0) }
@@ -174,6 +176,7 @@ def addLine (p : Prog) (ws : List String) : Prog :=
   | ["config", "clock0", v] => { p with clock0 := nat! v }
   | ["config", "cblimit", v] => { p with cblimit := nat! v }
   | "config" :: "eintr" :: _ => p
+  | "config" :: "full" :: _ => p
   | ["config", "polllimit", _] => p
   | "on" :: key :: occ :: rest =>
     match keyOf key with
